@@ -33,6 +33,7 @@ Proof.
         destruct (3 <=? nth 10 b 0); [intros; inv_step; discriminate|].
         destruct (nth 10 b 0 =? 1); [|intros; inv_step; auto].
         destruct (negb (c_allow_v2 cfg)); [intros; inv_step; auto|].
+        destruct (c_sec_enabled cfg); [intros; inv_step; auto|].
         destruct (length b <? 12)%nat; [discriminate|].
         destruct (negb (v2_compat _ _)); [intros; inv_step; auto|].
         destruct (stype_code _); intros; inv_step; auto; discriminate.
